@@ -113,6 +113,7 @@ m("c03-next-byte-shift", MM, "output[offset_byte + 1] |= unarmored << (8 - offse
 m("c03-revert-F3", None, "selftest/reverts/F3.patch", None, ["C03"])
 m("c03-len-floor", MM, "let byte_count = (bit_count / 8) + ((bit_count % 8 != 0) as usize);", "let byte_count = (bit_count / 8) + 1;", ["C03"])
 m("c03-second-mask-off-by-one", MM, "*byte &= 0xffu8 << (fill_bits - bits_in_final_byte);", "*byte &= 0xffu8 << (fill_bits - bits_in_final_byte + 1);", ["C03"])
+n("n-c03-enumerate", MM, ["    let mut offset = 0;\n    for byte in data {", "        offset += 6;\n    }"], ["    for (i, byte) in data.iter().enumerate() {\n        let offset = i * 6;", "    }"], ["C03", "C01"])
 n("n-c03-fill-ge", MM, "if fill_bits > bits_in_final_byte {", "if fill_bits >= bits_in_final_byte {", ["C03"])
 # ---- C01
 m("c01-alphabet-47", MM, "48..=87 => byte - 48,", "47..=87 => byte - 48,", ["C01"])
@@ -148,6 +149,7 @@ m("c20-err-to-stdout", BB, "                    eprintln!(", "                  
 m("c20-exit-on-error", BB, "                        err\n                    );", "                        err\n                    );\n                    std::process::exit(1);", ["C20"])
 m("c20-split-on-cr", BB, ".split(b'\\n')", ".split(b'\\r')", ["C20"])
 # ---- neutral edits
+n("n-t10-tuple-combinator", S + "utc_date_inquiry.rs", "        let (data, message_type) = take_bits(6u8)(data)?;\n        let (data, repeat_indicator) = take_bits(2u8)(data)?;", "        let (data, (message_type, repeat_indicator)) = nom::sequence::tuple((take_bits(6u8), take_bits(2u8)))(data)?;", ["C04", "C09", "C01"])
 n("n-t16-gt-51", S + "assignment_mode_command.rs", "if remaining_bits >= 52 {", "if remaining_bits > 51 {", ["C04", "C14"])
 n("n-t12-error-kind", S + "addressed_safety_related.rs", "nom::error::ErrorKind::Eof,", "nom::error::ErrorKind::Digit,", ["C04", "C14", "C09"])
 n("n-struct-literal-order", S + "utc_date_inquiry.rs", "                message_type,\n                repeat_indicator,", "                repeat_indicator,\n                message_type,", ["C04", "C09"])
